@@ -199,3 +199,42 @@ def r6(cx):
 def r7(cx):
     from .c18 import rule_leaf_chain
     rule_leaf_chain(cx)
+
+
+def rule_table_bounds_cover_every_entry(cx):
+    """A table's recorded bounds (sequence range, largest key, key time range) are used to *skip* the table: the history
+    scan with a timestamp window prunes tables whose [oldest_key_time, newest_key_time] misses the window, reopen validates
+    sequence ranges, lookups use the key range.  Skipping is only sound if every entry added to the table -- tombstones and
+    hard deletes included, they are barriers -- widens the bounds: in TableWriter::update_meta_properties these updates lie
+    on every path to the return."""
+    f = cx.f
+    b = f.body("TableWriter::update_meta_properties")
+    ex = [x for x, k in exits(b)] or b.rets
+    n = 0
+    for fld in ("oldest_key_time", "newest_key_time"):
+        ws = sorted({i for i, j, lhs, rv, line in b.assigns() if i in b.live and any(isinstance(p, list) and p[0] == "f" and p[2] == fld for p in lhs[1:])})
+        n += 1
+        cx.check(bool(ws) and all(b.set_dominates(ws, x) or x in ws for x in ex), "every added entry updates `%s`" % fld, "table-bound-conditional|%s" % fld, b.where(ws[0]) if ws else b.where(),
+                 "TableWriter::update_meta_properties updates `%s` only for some entries: a table that holds e.g. only delete markers inside a time window records a range "
+                 "outside it and is pruned by windowed history scans -- the barrier is skipped and erased versions are listed again" % fld)
+    for pat in ("TableMetadata::update_seq_num", "TableMetadata::set_largest_point_key"):
+        cs = b.calls_to(pat)
+        n += 1
+        cx.check(bool(cs) and all(b.set_dominates([c.bb for c in cs], x) for x in ex), "every added entry updates the table's %s" % pat.split("::")[-1], "table-bound-conditional|%s" % pat.split("::")[-1], b.where())
+    cx.floor("table bound updates", n, 4)
+    # the value feeding the time range is the entry's own timestamp
+    for i, j, lhs, rv, line in b.assigns():
+        if i in b.live and any(isinstance(p, list) and p[0] == "f" and p[2] in ("oldest_key_time", "newest_key_time") for p in lhs[1:]):
+            o = origin_of_operand(b, _rvop(rv), through_calls="all")
+            cx.check("timestamp" in o.field_names(), "the time range is fed from the entry's timestamp", "table-time-source", "%s:%d" % (b.file, line))
+
+
+def _rvop(rv):
+    from ..core import _rvalue_operands
+    ops = _rvalue_operands(rv)
+    return ops[0] if ops else ["k", {"ty": "?"}]
+
+
+@rule("C10", "C10.R8", "tables can be pruned by time window only because every entry (tombstones too) widens the recorded range")
+def r8(cx):
+    rule_table_bounds_cover_every_entry(cx)
